@@ -336,11 +336,16 @@ pub fn repair_indexed(d: &D) -> D {
 
 /// Coarse feature of a pair that two known findings hinge on (used to key their signatures).
 pub fn pair_feature(env: &Env, a: &D, b: &D) -> Option<&'static str> {
+    pair_features(env, a, b).first().copied()
+}
+/// every root-cause family present in the pair, in priority order
+pub fn pair_features(env: &Env, a: &D, b: &D) -> Vec<&'static str> {
     let vocab = vocab_of(env, a, b);
     let mut uninhabited_index = false;
     let mut inter_with_index = false;
     let mut uninhabited_inter = false;
     let mut empty_object_in_union = false;
+    let mut optional_sibling_in_union = false;
     let mut union_of_maps = false;
     let mut recursive_index = false;
     for (i, (_, d)) in env.defs.iter().enumerate() {
@@ -407,10 +412,36 @@ pub fn pair_feature(env: &Env, a: &D, b: &D) -> Option<&'static str> {
                     }
                     let mut fm: Vec<&D> = vec![];
                     ms.iter().for_each(|m| flat(&r, m, &mut fm, 0));
-                    let empties = fm.iter().filter(|m| matches!(m, D::Object { props, index: None } if props.is_empty())).count();
+                    // `{}` and every object type whose properties are all optional ({a?: T}): {} is an exact value of them
+                    let empties = fm.iter().filter(|m| matches!(m, D::Object { props, index: None } if props.iter().all(|p| p.optional))).count();
                     let objects = fm.iter().filter(|m| matches!(m, D::Object { .. } | D::Inter(_))).count();
                     if empties >= 1 && objects >= 2 {
                         empty_object_in_union = true;
+                    }
+                    // more generally: a member whose required keys are a proper part of a sibling's keys
+                    // ({a: "a"} next to {a: "a" | "b"; b: boolean}; {k: T; a?: null} next to {k: T; b: string}) absorbs
+                    // that sibling
+                    let merged: Vec<D> = fm
+                        .iter()
+                        .filter_map(|m| match m {
+                            D::Object { .. } => Some((*m).clone()),
+                            D::Inter(ims) => r.merge_objects(ims),
+                            _ => None,
+                        })
+                        .collect();
+                    let objs: Vec<(Vec<&String>, Vec<&String>)> = merged
+                        .iter()
+                        .filter_map(|m| match m {
+                            D::Object { props, .. } => Some((props.iter().filter(|p| !p.optional).map(|p| &p.key).collect(), props.iter().map(|p| &p.key).collect())),
+                            _ => None,
+                        })
+                        .collect();
+                    for (i, (req_i, all_i)) in objs.iter().enumerate() {
+                        for (j, (_, all_j)) in objs.iter().enumerate() {
+                            if i != j && req_i.iter().all(|k| all_j.contains(k)) && all_j.iter().any(|k| !all_i.contains(k)) {
+                                optional_sibling_in_union = true;
+                            }
+                        }
                     }
                 }
                 D::Inter(ms) => {
@@ -462,15 +493,31 @@ pub fn pair_feature(env: &Env, a: &D, b: &D) -> Option<&'static str> {
     }
     // one family: records / Maps / Sets over an empty value type are taken to be empty, and intersections that
     // involve index signatures or contradictory members are not analysed consistently
-    if recursive_index || uninhabited_index || inter_with_index || uninhabited_inter {
-        Some("record_emptiness")
-    } else if empty_object_in_union {
-        Some("empty_object_type_in_union")
-    } else if union_of_maps {
-        Some("union_of_maps")
-    } else {
-        None
+    // one family (records / Maps / Sets over an empty value type are taken to be empty, and intersections that involve
+    // index signatures or contradictory members are not analysed consistently), keyed by the member that is present
+    let mut out = vec![];
+    if recursive_index {
+        out.push("recursive_index");
     }
+    if uninhabited_index {
+        out.push("uninhabited_index_value");
+    }
+    if uninhabited_inter {
+        out.push("uninhabited_intersection");
+    }
+    if inter_with_index {
+        out.push("intersection_with_index_signature");
+    }
+    if empty_object_in_union {
+        out.push("empty_object_type_in_union");
+    }
+    if union_of_maps {
+        out.push("union_of_maps");
+    }
+    if optional_sibling_in_union {
+        out.push("union_member_with_fewer_keys");
+    }
+    out
 }
 
 #[derive(Debug, Clone, Serialize, Deserialize)]
@@ -538,10 +585,22 @@ impl Check for C05 {
         let mut out = Outcome::default();
         out.evals = 1;
         let detail = json!({"env": case.env, "a": case.a, "b": case.b});
-        let ans = match ctx.compiler.sem(json!({"sem":"subtype","env":case.env,"a":case.a,"b":case.b}), if ctx.shrinking { 3 } else { 10 }) {
+        let req = json!({"sem":"subtype","env":case.env,"a":case.a,"b":case.b});
+        let first = ctx.compiler.sem(req.clone(), if ctx.shrinking { 3 } else { 10 });
+        // the request makes four decisions (a<=b, b<=a, same, and a<=b again in a fresh context).  A time budget hit is
+        // first repeated alone with a generous bound (unions of a dozen object types take seconds: slow, not a hang);
+        // only a decision that does not come back within 120 s counts as non-termination.
+        let first = match first {
+            Err(CompileFail::Timeout) if !ctx.shrinking => {
+                out.label("slow_decision_retried");
+                ctx.compiler.sem(req, if ctx.strict { 60 } else { 120 })
+            }
+            other => other,
+        };
+        let ans = match first {
             Ok(v) => v,
             Err(CompileFail::Timeout) => {
-                out.mismatch(ctx, "subtype_hang", "the assignability decision did not terminate within 10 s", detail);
+                out.mismatch(ctx, "subtype_hang", "the assignability decision did not terminate (10 s, then 120 s alone)", detail);
                 return out;
             }
             Err(CompileFail::Crashed(st)) => {
@@ -615,17 +674,20 @@ impl Check for C05 {
             out.nontrivial = Some(fp(&detail.to_string()));
             out.sample = Some(json!({"a": case.a, "b": case.b, "env": case.env, "beff_says_a_assignable_to_b": ab, "witness": witness.as_ref().map(|w| w.to_tagged()), "values_enumerated": ws.len(), "complete": complete}));
         }
-        let feature = pair_feature(&case.env, &case.a, &case.b);
-        let sig = |base: &str| match feature {
-            Some(f) => format!("{}:{}", base, f),
-            None => base.to_string(),
+        let features = pair_features(&case.env, &case.a, &case.b);
+        let sig = |base: &str| -> Vec<String> {
+            if features.is_empty() {
+                vec![base.to_string()]
+            } else {
+                features.iter().map(|f| format!("{}:{}", base, f)).collect()
+            }
         };
-        if let Some(f) = feature {
+        for f in &features {
             out.label(format!("feature:{}", f));
         }
         if ab {
             if let Some(w) = witness {
-                out.mismatch(
+                out.mismatch_any(
                     ctx,
                     &sig("says_assignable_but_witness"),
                     "beff says A is assignable to B, but an exact value of A is not a value of B",
@@ -633,7 +695,7 @@ impl Check for C05 {
                 );
             }
         } else if complete && !unspec && witness.is_none() && checked > 0 {
-            out.mismatch(
+            out.mismatch_any(
                 ctx,
                 &sig("says_not_assignable_but_no_witness"),
                 format!("beff says A is not assignable to B, but all {} exact values of A (complete enumeration) are values of B", checked),
@@ -1154,45 +1216,52 @@ impl Check for C07 {
         }
         let printed_txt = ans["printed"].as_str().unwrap_or("").to_string();
         let dropped = ans["dropped_negation"].as_bool().unwrap_or(false);
-        let mut feature = pair_feature(&case.env, &case.x, &case.y);
-        if feature.is_none() && case.op == "intersect" {
-            // the operation itself builds the intersection: look at it in merged form as well
-            feature = pair_feature(&case.env, &D::Inter(vec![case.x.clone(), case.y.clone()]), &D::Never);
-        }
+        let mut features: Vec<&'static str> = pair_features(&case.env, &case.x, &case.y);
         if case.op == "intersect" {
+            // the operation itself builds the intersection: look at it in merged form as well
+            for f in pair_features(&case.env, &D::Inter(vec![case.x.clone(), case.y.clone()]), &D::Never) {
+                if !features.contains(&f) {
+                    features.push(f);
+                }
+            }
             let r = Ref::new(&case.env, Mode::Open);
             let ix = |d: &D| match r.head(d) {
                 D::Object { index: Some(_), .. } => true,
                 D::Union(ms) => ms.iter().any(|m| matches!(r.head(m), D::Object { index: Some(_), .. })),
                 _ => false,
             };
-            if ix(&case.x) || ix(&case.y) {
-                feature = Some("record_emptiness");
+            if (ix(&case.x) || ix(&case.y)) && !features.contains(&"intersection_with_index_signature") {
+                features.push("intersection_with_index_signature");
             }
         }
-        if printed_txt.contains("[key") && printed_txt.contains(" & ") {
+        if printed_txt.contains("[key") && printed_txt.contains(" & ") && !features.contains(&"intersection_with_index_signature") {
             // a record meets an object inside the materialised result (e.g. same-named properties of two
             // intersection members)
-            feature = Some("record_emptiness");
+            features.push("intersection_with_index_signature");
         }
-        if feature.is_none() && printed_txt.matches("Map<").count() >= 2 {
-            feature = Some("union_of_maps");
+        if printed_txt.matches("Map<").count() >= 2 && !features.contains(&"union_of_maps") {
+            features.push("union_of_maps");
         }
-        let suffix = match (dropped, feature) {
-            (true, _) => ":dropped_negation".to_string(),
-            (false, Some(f)) => format!(":{}", f),
-            (false, None) => String::new(),
+        let feature = features.first().copied();
+        let sigs = |base: &str| -> Vec<String> {
+            if dropped {
+                vec![format!("{}:dropped_negation", base)]
+            } else if features.is_empty() {
+                vec![base.to_string()]
+            } else {
+                features.iter().map(|f| format!("{}:{}", base, f)).collect()
+            }
         };
         if ans["roundtrip"] == json!(false) && printed_txt.contains("undefined") {
             // optional properties are materialised as `k?: undefined | T`: the engine tells absent from undefined,
             // the value sets are the same (judged by (b)); not a change of meaning
             out.label("roundtrip_differs_only_by_optional_undefined");
         } else if ans["roundtrip"] == json!(false) {
-            out.mismatch(ctx, &format!("roundtrip_differs{}", suffix), format!("the materialised type converted back is not the same semantic type (printed: {})", ans["printed"]), json!({"case": detail, "printed": ans["printed"]}));
+            out.mismatch_any(ctx, &sigs("roundtrip_differs"), format!("the materialised type converted back is not the same semantic type (printed: {})", ans["printed"]), json!({"case": detail, "printed": ans["printed"]}));
         }
         if let Some(ps) = ans["value_problems"].as_array() {
             if let Some(p) = ps.first() {
-                out.mismatch(ctx, &format!("value_membership_differs{}", suffix), format!("a value is in the semantic type but not in its materialisation, or vice versa (printed: {})", ans["printed"]), json!({"case": detail, "first": p, "printed": ans["printed"]}));
+                out.mismatch_any(ctx, &sigs("value_membership_differs"), format!("a value is in the semantic type but not in its materialisation, or vice versa (printed: {})", ans["printed"]), json!({"case": detail, "first": p, "printed": ans["printed"]}));
             }
         }
         // ---- source level ----
